@@ -940,7 +940,40 @@ func (k *K) runBellmanFordAllFrom(s int) {
 
 // ---------------- all-pairs ----------------
 
+// checkAllShortest judges ap and then, on enumerated graphs, asks every
+// pair again in a different (shuffled) order: the result objects are queried
+// repeatedly in practice and the answers must not depend on earlier queries.
 func (k *K) checkAllShortest(routine string, ap path.AllShortest) {
+	k.checkAllShortestOnce(routine, ap)
+	if !k.exhaustive || k.c.NumViolations() > 40 {
+		return
+	}
+	n := k.g.N
+	for _, x := range k.r.Perm(n * n) {
+		s, t := x/n, x%n
+		if math.IsInf(k.d[s][t], -1) {
+			continue
+		}
+		var w float64
+		var p []graph.Node
+		q := lazy("%s.Between(%d,%d) [second pass]", routine, k.g.IDs[s], k.g.IDs[t])
+		if k.try(routine+".Between", s, t, q, func() { p, w, _ = ap.Between(k.g.IDs[s], k.g.IDs[t]) }) {
+			continue
+		}
+		if cl := k.judgePath(s, t, p, w); cl != "" {
+			if (cl == "not-a-walk" || cl == "weight-sum") && k.zeroCycleOn(s, t) {
+				k.violSig("AllShortest.Between|zerocycle|"+cl, q, mkObs(p, w), fstr(k.d[s][t]))
+				continue
+			}
+			k.viol(routine+".Between(requery)", s, t, cl, q, mkObs(p, w), fstr(k.d[s][t]))
+		}
+		if ww := ap.Weight(k.g.IDs[s], k.g.IDs[t]); ww != k.d[s][t] {
+			k.viol(routine+".Weight(requery)", s, t, "wrong-weight", q, fstr(ww), fstr(k.d[s][t]))
+		}
+	}
+}
+
+func (k *K) checkAllShortestOnce(routine string, ap path.AllShortest) {
 	n := k.g.N
 	type pair struct{ s, t int }
 	var pairs []pair
